@@ -63,9 +63,10 @@ func (w *World) syncProc(bc *core.Blockchain, flush func()) (err error) {
 		return nil
 	}
 	if mod.NeedHeaders() {
-		for from := bc.HeaderHeight() + 1; from <= ji.N; from += 7 {
+		const chunk = 500
+		for from := bc.HeaderHeight() + 1; from <= ji.N && mod.NeedHeaders(); from += chunk {
 			var hs []*block.Header
-			for h := from; h < from+7 && h <= ji.N; h++ {
+			for h := from; h < from+chunk && h <= ji.N; h++ {
 				hs = append(hs, &w.block(h).Header)
 			}
 			if err := mod.AddHeaders(hs...); err != nil {
